@@ -454,9 +454,26 @@ func c01Colours(c *Ctx, p *Prog, fn *ssa.Function) {
 				}
 				leaves := map[string]int{}
 				seen := map[ssa.Value]bool{}
+				// bind: parameters of a helper that is being looked into -> the caller's arguments
+				bind := map[*ssa.Parameter]ssa.Value{}
+				resolve := func(x ssa.Value) ssa.Value {
+					for i := 0; i < 4; i++ {
+						prm, isP := x.(*ssa.Parameter)
+						if !isP {
+							break
+						}
+						b, okB := bind[prm]
+						if !okB {
+							break
+						}
+						x = b
+					}
+					return x
+				}
+				depth := 0
 				var walk func(x ssa.Value)
 				walk = func(x ssa.Value) {
-					x = derefCell(x)
+					x = resolve(derefCell(x))
 					if seen[x] {
 						return
 					}
@@ -468,7 +485,7 @@ func c01Colours(c *Ctx, p *Prog, fn *ssa.Function) {
 						}
 					case *ssa.Extract:
 						if lk, isLk := y.Tuple.(*ssa.Lookup); isLk {
-							if r, _, ok := loadedField(lk.X); ok && r.String() == "tcell.tScreen.colors" {
+							if r, _, ok := loadedField(resolve(lk.X)); ok && r.String() == "tcell.tScreen.colors" {
 								leaves["cache"]++
 								return
 							}
@@ -482,10 +499,27 @@ func c01Colours(c *Ctx, p *Prog, fn *ssa.Function) {
 						leaves["other:"+valName(x)]++
 					case *ssa.Call:
 						if strings.HasSuffix(calleeName(&y.Call), "tcell/v2.FindColor") && len(y.Call.Args) == 2 {
-							if r, _, ok := loadedField(y.Call.Args[1]); ok && r.String() == "tcell.tScreen.palette" {
+							if r, _, ok := loadedField(resolve(y.Call.Args[1])); ok && r.String() == "tcell.tScreen.palette" {
 								leaves["FindColor(palette)"]++
 								return
 							}
+						}
+						// a helper of the screen that does the lookup: its results, with its parameters
+						// bound to the arguments of this call
+						if h := y.Call.StaticCallee(); h != nil && h.Pkg == p.Tcell && len(h.Blocks) > 0 && depth < 2 && recvTypeName(h) == "tcell.tScreen" {
+							for i, prm := range h.Params {
+								if i < len(y.Call.Args) {
+									bind[prm] = y.Call.Args[i]
+								}
+							}
+							depth++
+							for _, r := range returnsOf(h) {
+								if len(r.Results) == 1 {
+									walk(resultOf(r, 0))
+								}
+							}
+							depth--
+							return
 						}
 						leaves["other:"+valName(x)]++
 					case *ssa.Parameter:
